@@ -383,6 +383,16 @@ def leg(ctx, rng, tmp, observe, what, families, which=None, n_per_family=1, prim
                 else:
                     mesh = gen.lattice_mesh(rng, 2, 2, variety=False, drop=False)
                 d = gen.ugrid(rng, mesh=mesh, invalid=False, transposed=True, supplied=set(), edge_dim_declared=False)
+            elif fam == 'ugrid_concave':
+                # an L-shaped (concave) six-sided face next to a quadrilateral
+                # (away from 0E 0N: a coordinate of exactly zero moved by a hair is no longer "the same to six decimals")
+                nodes = [(40 + x, 24 + y) for x, y in [(0, 0), (16, 0), (16, 8), (8, 8), (8, 16), (0, 16), (24, 0), (24, 8)]]
+                faces = [[0, 1, 2, 3, 4, 5], [1, 6, 7, 2]]
+                k_ = rng.randrange(6)
+                faces[0] = faces[0][k_:] + faces[0][:k_]
+                if rng.random() < 0.5:
+                    faces.reverse()
+                d = gen.ugrid(rng, mesh=(nodes, faces), invalid=False)
             elif fam == 'ugrid_big_faces':
                 # a ten-sided face next to a triangle and a quadrilateral
                 nodes = [(0, 24), (16, 8), (40, 0), (64, 8), (80, 24), (80, 48), (64, 64), (40, 72), (16, 64), (0, 48),
@@ -956,7 +966,7 @@ RUNS = {
     'C11': (obs_detect, 'convention detection', gen.FAMILIES, None, ('lazy', 'raw', 'view_of_file', 'big_endian')),
     'C12': (obs_floor, 'ocean floor', ['cf1d', 'cf2d', 'shoc_standard', 'ugrid'], with_depth, ('lazy', 'raw', 'view_of_file', 'big_endian', 'transposed_view')),
     'C13': (obs_normalize, 'depth normalisation', ['cf1d', 'shoc_simple', 'ugrid'], with_depth, ('lazy', 'raw', 'view_of_file', 'big_endian')),
-    'C14': (obs_triangulate, 'triangulation', gen.FAMILIES + ['ugrid_quads1', 'ugrid_big_faces', 'cf1d_int', 'cf2d_lon_T', 'cf2d_river'], None, ('lazy', 'raw', 'view_of_file', 'big_endian', 'mixed_precision')),
+    'C14': (obs_triangulate, 'triangulation', gen.FAMILIES + ['ugrid_quads1', 'ugrid_big_faces', 'cf1d_int', 'cf2d_lon_T', 'cf2d_river', 'ugrid_concave'], None, ('lazy', 'raw', 'view_of_file', 'big_endian', 'mixed_precision')),
     'C15': (obs_export, 'geometry export', gen.FAMILIES + ['cf1d_desc', 'cf1d_bounds', 'ugrid_quads1', 'ugrid_big_faces', 'cf1d_int', 'cf2d_lon_T', 'cf2d_river'], None, ('lazy', 'raw', 'view_of_file', 'big_endian', 'mixed_precision')),
     'C18': (obs_transect, 'transect pieces and prepared data', ['cf1d', 'cf2d', 'ugrid'], with_depth, ('lazy', 'view_of_file', 'big_endian', 'transposed_view')),
     'C19': (obs_plot, 'polygon collection', gen.FAMILIES + ['ugrid_quads1', 'cf1d_int', 'cf2d_lon_T', 'cf2d_river'], with_data, None),
